@@ -214,7 +214,8 @@ pub mod unit {
     ///     |tracked| { let update = <MATCH>; Some((tracked.substate_key, update)) }
     /// passed to `filter_map`. <MATCH> is extracted verbatim from /repo (expr-after); the two lines
     /// around it are re-typed here. The enclosing loops / `into_values().filter_map(..).collect()`
-    /// chain and `mut_update_substates` are dropped and NOT verified.
+    /// chain and `mut_update_substates` are dropped and NOT verified. (`tracked` is a Verus keyword, hence
+    /// the raw identifier `r#tracked` for the closure parameter; inside expressions it is the same name.)
     pub fn to_state_updates_closure_1(r#tracked: TrackedSubstate) -> (ret: Option<(SubstateKey, DatabaseUpdate)>)
         ensures match emitted(tracked.substate_value) {
             None => ret is None,
